@@ -539,6 +539,17 @@ class Interp:
             fi: FuncInfo = payload
             if fi.kind == 'property':
                 return self.call_funcinfo(fi, [o], {}, defcls=owner)
+            if fi.kind == 'cached_property':
+                # functools.cached_property: computed on first access and STORED in the instance __dict__ (a write to
+                # the object, also on frozen dataclasses / equinox modules); later accesses return the stored value
+                key = f'__cached__{name}'
+                if key in o.fields:
+                    return o.fields[key]
+                v = self.call_funcinfo(fi, [o], {}, defcls=owner)
+                o.fields[key] = v
+                if self.theory is not None and hasattr(self.theory, 'instance_cached'):
+                    self.theory.instance_cached(self, o, name, v)
+                return v
             if fi.kind == 'staticmethod':
                 return FuncRef(fi, None)
             if fi.kind == 'classmethod':
@@ -1199,6 +1210,139 @@ class Interp:
                 continue
         self.exec_block(s.orelse, fr)
 
+    # ---- search loops: `for x in seq: if c(x): return v` executed as `if any(c(x) for x in seq): return v`
+    def _search_loop(self, s, fr):
+        """body = optional local bindings, then ONE `if c: return v` (no else) where v does not depend on the loop variable
+        or on the bindings: the loop returns v iff some element satisfies c, and falls through otherwise.  Returns
+        (ast of `any(c for x in seq)`, the Return node) or None."""
+        import copy
+        if s.orelse:
+            return None
+        env, body = {}, list(s.body)
+
+        class Sub(ast.NodeTransformer):
+            def visit_Name(self, n):
+                if isinstance(n.ctx, ast.Load) and n.id in env:
+                    return copy.deepcopy(env[n.id])
+                return n
+        while body and isinstance(body[0], ast.Assign) and len(body[0].targets) == 1 and isinstance(body[0].targets[0], ast.Name):
+            env[body[0].targets[0].id] = Sub().visit(copy.deepcopy(body[0].value))
+            body = body[1:]
+        if len(body) != 1 or not isinstance(body[0], ast.If) or body[0].orelse or len(body[0].body) != 1 \
+                or not isinstance(body[0].body[0], ast.Return):
+            return None
+        ret = body[0].body[0]
+        local = set(env) | {n.id for n in ast.walk(s.target) if isinstance(n, ast.Name)}
+        if ret.value is not None and any(isinstance(n, ast.Name) and n.id in local for n in ast.walk(ret.value)):
+            return None
+        if fr.func is not None:
+            later = {n.id for n in ast.walk(fr.func.node) if isinstance(n, ast.Name) and isinstance(n.ctx, ast.Load)
+                     and n.lineno > s.end_lineno}
+            if local & later:
+                return None
+        test = Sub().visit(copy.deepcopy(body[0].test))
+        gen = ast.GeneratorExp(elt=test, generators=[ast.comprehension(target=copy.deepcopy(s.target),
+                                                                        iter=copy.deepcopy(s.iter), ifs=[], is_async=0)])
+        call = ast.Call(func=ast.Name(id='any', ctx=ast.Load()), args=[gen], keywords=[])
+        ast.copy_location(call, s)
+        ast.fix_missing_locations(call)
+        return call, ret
+
+    # ---- append loops: `for x in seq: ... lst.append(e)` executed as the equivalent comprehension
+    def _append_loop(self, s, fr):
+        """A loop whose body only binds locals and, in tail position of every path, appends at most one value to ONE list
+        (`if c: continue` guards allowed) is `lst.extend([ELT for x in seq if KEEP])`: ELT / KEEP are assembled from the
+        body by substituting the local bindings (assumed side-effect free, as in a comprehension).  Returns
+        (list name, ast.ListComp) or None when the body has another shape."""
+        import copy
+        if s.orelse:
+            return None
+        names = {'lst': None}
+        bound = set()
+
+        class Sub(ast.NodeTransformer):
+            def __init__(self, env):
+                self.env = env
+
+            def visit_Name(self, n):
+                if isinstance(n.ctx, ast.Load) and n.id in self.env:
+                    return copy.deepcopy(self.env[n.id])
+                return n
+
+        def subst(e, env):
+            return Sub(env).visit(copy.deepcopy(e)) if env else copy.deepcopy(e)
+
+        def conj(a, b):
+            if a is None:
+                return b
+            if b is None:
+                return a
+            return ast.BoolOp(op=ast.And(), values=[a, b])
+
+        def neg(c):
+            return ast.UnaryOp(op=ast.Not(), operand=c)
+
+        total = {'all_paths_append': True}
+
+        def tr(stmts, env):
+            env = dict(env)
+            for i, st in enumerate(stmts):
+                last = i == len(stmts) - 1
+                if isinstance(st, ast.Assign) and len(st.targets) == 1 and isinstance(st.targets[0], ast.Name):
+                    env[st.targets[0].id] = subst(st.value, env)
+                    bound.add(st.targets[0].id)
+                    continue
+                if isinstance(st, ast.Expr) and isinstance(st.value, ast.Call) and isinstance(st.value.func, ast.Attribute) \
+                        and st.value.func.attr == 'append' and isinstance(st.value.func.value, ast.Name) \
+                        and len(st.value.args) == 1 and not st.value.keywords:
+                    if not last or names['lst'] not in (None, st.value.func.value.id):
+                        return None
+                    names['lst'] = st.value.func.value.id
+                    return [(None, subst(st.value.args[0], env))]
+                if isinstance(st, ast.If):
+                    c = subst(st.test, env)
+                    if len(st.body) == 1 and isinstance(st.body[0], ast.Continue) and not st.orelse:
+                        total['all_paths_append'] = False
+                        rest = tr(stmts[i + 1:], env)
+                        return None if rest is None else [(conj(neg(c), g), e) for g, e in rest]
+                    if not last:
+                        return None
+                    a, b = tr(st.body, env), tr(st.orelse, env) if st.orelse else []
+                    if a is None or b is None:
+                        return None
+                    if not st.orelse:
+                        total['all_paths_append'] = False
+                    return [(conj(c, g), e) for g, e in a] + [(conj(neg(copy.deepcopy(c)), g), e) for g, e in b]
+                if isinstance(st, ast.Pass):
+                    continue
+                return None
+            total['all_paths_append'] = False           # fell off the end of a block without appending
+            return []
+        alts = tr(s.body, {})
+        if not alts or names['lst'] is None:
+            return None
+        if any(names['lst'] == n.id for n in ast.walk(ast.Module(body=[ast.Expr(value=e) for _, e in alts], type_ignores=[]))
+               if isinstance(n, ast.Name)):
+            return None                     # the appended value reads the list being built
+        # names bound in the body (and the loop target) must not be read after the loop
+        target_names = {n.id for n in ast.walk(s.target) if isinstance(n, ast.Name)}
+        if fr.func is not None:
+            later = {n.id for n in ast.walk(fr.func.node) if isinstance(n, ast.Name) and isinstance(n.ctx, ast.Load)
+                     and n.lineno > s.end_lineno}
+            if (bound | target_names) & later:
+                return None
+        elt = alts[-1][1]
+        for g, e in reversed(alts[:-1]):
+            elt = e if g is None else ast.IfExp(test=copy.deepcopy(g), body=e, orelse=elt)
+        keep = None
+        if not total['all_paths_append'] and all(g is not None for g, _ in alts):
+            keep = alts[0][0] if len(alts) == 1 else ast.BoolOp(op=ast.Or(), values=[copy.deepcopy(g) for g, _ in alts])
+        comp = ast.ListComp(elt=elt, generators=[ast.comprehension(target=copy.deepcopy(s.target), iter=copy.deepcopy(s.iter),
+                                                                    ifs=[keep] if keep is not None else [], is_async=0)])
+        ast.copy_location(comp, s)
+        ast.fix_missing_locations(comp)
+        return names['lst'], comp
+
     def stateless_for(self, s, fr, seq: SSeq, key):
         """`for x in seq:` over a symbolic-length sequence whose body carries no state to the next
         iteration or past the loop (it only raises or falls through).  Rule: either some first
@@ -1210,13 +1354,38 @@ class Interp:
             if isinstance(n, ast.Name) and isinstance(n.ctx, ast.Store):
                 assigned.add(n.id)
             if isinstance(n, (ast.Break, ast.Return)):
+                sr = self._search_loop(s, fr)
+                if sr is not None:
+                    test, ret = sr
+                    if self.truth(self.ev(test, fr)):
+                        raise ReturnEx(self.ev(ret.value, fr) if ret.value is not None else None)
+                    return
                 raise Unsupported('symbolic-length for loop with break/return needs a loop contract')
             if isinstance(n, ast.Call) and isinstance(n.func, ast.Attribute) and n.func.attr in (
                     'append', 'extend', 'add', 'update', 'pop', 'insert', 'remove'):
+                al = self._append_loop(s, fr)
+                if al is not None:
+                    lst_name, comp = al
+                    self.call(self.getattr(self.lookup(lst_name, fr), 'extend'), [self.ev(comp, fr)])
+                    return
                 raise Unsupported('symbolic-length for loop mutating a container needs a loop contract')
         for n in ast.walk(s.target):
             if isinstance(n, ast.Name):
                 assigned.add(n.id)
+        # counting loop: `for x in seq: if c(x): n += 1`  is  `n += sum(c(x) for x in seq)`
+        if len(s.body) == 1 and isinstance(s.body[0], ast.If) and not s.body[0].orelse and len(s.body[0].body) == 1 \
+                and isinstance(s.body[0].body[0], ast.AugAssign) and isinstance(s.body[0].body[0].op, ast.Add) \
+                and isinstance(s.body[0].body[0].target, ast.Name) and isinstance(s.body[0].body[0].value, ast.Constant) \
+                and s.body[0].body[0].value.value == 1 and not s.orelse:
+            import copy
+            cnt = s.body[0].body[0].target.id
+            gen = ast.GeneratorExp(elt=copy.deepcopy(s.body[0].test), generators=[ast.comprehension(
+                target=copy.deepcopy(s.target), iter=copy.deepcopy(s.iter), ifs=[], is_async=0)])
+            stmt = ast.AugAssign(target=ast.Name(id=cnt, ctx=ast.Store()), op=ast.Add(),
+                                 value=ast.Call(func=ast.Name(id='sum', ctx=ast.Load()), args=[gen], keywords=[]))
+            ast.copy_location(stmt, s)
+            ast.fix_missing_locations(stmt)
+            return self.exec_stmt(stmt, fr)
         # names assigned in the body must not be read after the loop in this function
         fi = fr.func
         if fi is not None:
